@@ -1,5 +1,5 @@
-import Chewing.Proofs.CliSource
-import Chewing.Proofs.CliSqlLookup
+import Chewing.Proofs.CliFile
+import Chewing.Proofs.CliSqlOrder
 /-!
 # C20 — The dictionary compiler and dumper are inverse on well-formed sources
 
@@ -16,9 +16,13 @@ How the statement is carried
   frequencies zeroed unless kept), `inserted_are_valid_records` (the builder gets exactly the records
   of the parsing lines), `dump_lists_last_records` (both back ends enumerate exactly the last record of
   every (syllables, phrase) pair), `dump` = one `dumpLine` per enumerated entry (definition);
+* the whole statement for a file: `wellformed_source_roundtrip` (any file of well-formed free-style lines,
+  LF / CRLF / no final newline, both back ends, all flags: compiles, the dump lists exactly its last
+  records, the dump text compiles to the same entries and dumps to the same text again, lookups agree
+  outside the exact class of F34);
 * "compiling the dump again yields an equivalent dictionary": `dump_compile_roundtrip` (nothing is
   reported, the same entries come out in the same order — trie and SQLite), `recompiled_lookup_trie`
-  (every key looks up the same phrases in the same order);
+  (every key looks up the same phrases in the same order), `recompiled_lookup_iff` (exactly when);
 * "a malformed line is reported with its line number and no output file is produced unless skipping
   was requested": `malformed_reported`, `reported_iff`, `skip_invalid_keeps_valid`.
 
@@ -28,8 +32,10 @@ a concrete witness and a partial theorem that excludes exactly the class):
   the parser accepts — `malformed_full_refuted`, `malformed_reported_partial`;
 * F18 `F18-tone1` / `empty-phrase`: accepted lines whose dump does not read back —
   `roundtrip_full_refuted`, `dump_compile_roundtrip` (hypothesis `WellFormedRecord`);
-* F34 `F34-sqlite-order`: the SQLite file compiled from the dump orders the candidates of a
-  one-syllable key differently — `recompiled_lookup_sqlite_refuted`, `recompiled_lookup_partial`.
+* F34 `F34-sqlite-order`: the SQLite file compiled from the dump lists the candidates of a one-syllable
+  key in ascending order of their text instead of insertion order — `recompiled_lookup_sqlite_refuted`,
+  `recompiled_lookup_sqlite_single` (what it answers), `recompiled_lookup_iff` (exact class `F34Changes`),
+  `recompiled_lookup_partial`.
 -/
 namespace Chewing.C20
 open Chewing Chewing.Cli Gen
@@ -249,8 +255,97 @@ theorem recompiled_lookup_partial (db : Db) (ins : List Rec) (k : Key) (h : ¬ K
   | trie => exact recompiled_lookup_trie ins k
   | sqlite => exact sql_roundtrip_lookup ins k (fun e => h ⟨rfl, e⟩)
 
-/-- … and inside it the *set* of phrases is still the same (`dump_lists_last_records` on both sides) -/
 example : KnownF34 .sqlite [10268] := ⟨rfl, rfl⟩
+
+/-- **F34, what the recompiled SQLite file answers**: a one-syllable key lists its phrases in ascending
+    (bytewise) order of their text — the primary-key order of the dump has become the `sort_id` order -/
+theorem recompiled_lookup_sqlite_single (ins : List Rec) (k : Key) (hk : k.length = 1) :
+    dictLookup .sqlite (entries .sqlite ins) k = insSort pfLe (dictLookup .sqlite ins k) :=
+  sql_recompiled_lookup_single ins k hk
+
+/-- the exact class of F34: SQLite, a one-syllable key, and candidates that are not in ascending order of
+    their text -/
+def F34Changes (db : Db) (ins : List Rec) (k : Key) : Prop :=
+  db = .sqlite ∧ k.length = 1 ∧ ¬ (dictLookup .sqlite ins k).Pairwise (fun a b => pfLe a b = true)
+
+/-- **recompiled_lookup_iff** — the recompiled dictionary answers a key with the same phrases in the same
+    order **iff** the key is outside that class (both back ends, every key, every list of records) -/
+theorem recompiled_lookup_iff (db : Db) (ins : List Rec) (k : Key) :
+    dictLookup db (entries db ins) k = dictLookup db ins k ↔ ¬ F34Changes db ins k := by
+  cases db with
+  | trie => exact ⟨fun _ h => (by cases h.1), fun _ => recompiled_lookup_trie ins k⟩
+  | sqlite =>
+    by_cases hk : k.length = 1
+    · have := sql_single_lookup_preserved_iff ins k hk
+      constructor
+      · intro h hc
+        exact hc.2.2 (this.mp h)
+      · intro h
+        apply this.mpr
+        exact Classical.byContradiction fun hn => h ⟨rfl, hk, hn⟩
+    · exact ⟨fun _ h => hk h.2.1, fun _ => sql_roundtrip_lookup ins k hk⟩
+
+/-- the F34 witness is in the class, a sorted one (`側 冊` under ㄘㄜˋ) is not -/
+example : F34Changes .sqlite [⟨[28204], 0, [10268]⟩, ⟨[20874], 0, [10268]⟩] [10268] := by
+  refine ⟨rfl, rfl, ?_⟩
+  decide
+example : ¬ F34Changes .sqlite [⟨[20596], 0, [10268]⟩, ⟨[20874], 0, [10268]⟩] [10268] := by
+  rintro ⟨_, _, h⟩
+  exact h (by decide)
+
+/-! ## 3b. the whole statement for a source file of well-formed lines -/
+
+/-- **wellformed_source_roundtrip** — for every source file made of well-formed lines in free style
+    (`SrcLine`: optional quotes around phrase and frequency, runs of the delimiter, any commas / whitespace
+    between syllables, optional `# comment`; duplicates, homophones and prefix keys allowed; with `--csv`
+    any header line), written with LF line ends, for both back ends and all flags:
+    1. the file compiles — nothing is reported, every line's record is inserted (one-character frequencies
+       zeroed unless `--keep-word-freq`);
+    2. the built dictionary enumerates exactly the last record of every (syllables, phrase) pair;
+    3. the dump text, compiled again with the same flags, reports nothing and inserts exactly the dumped
+       entries; building and dumping again gives the same entries in the same order (same dump text);
+    4. every key outside the exact class of F34 looks up the same phrases in the same order in the
+       recompiled dictionary. -/
+theorem wellformed_source_roundtrip (db : Db) (f : Flags) (hdr : Text) (ls : List SrcLine)
+    (hok : ∀ l ∈ ls, l.OK f.delim) (hfile : ∀ t ∈ sourceLines f hdr ls, FileLine t) :
+    compileRun f (readLines (writeLines (sourceLines f hdr ls))) =
+        { reported := [], inserted := some (sourceRecs f ls) } ∧
+    (∀ x, x ∈ entries db (sourceRecs f ls) ↔ LastWins (sourceRecs f ls) x) ∧
+    compileRun f (readLines (writeLines (dump f.csv (entries db (sourceRecs f ls))))) =
+        { reported := [], inserted := some (entries db (sourceRecs f ls)) } ∧
+    dump f.csv (entries db (entries db (sourceRecs f ls))) = dump f.csv (entries db (sourceRecs f ls)) ∧
+    ∀ k, ¬ F34Changes db (sourceRecs f ls) k →
+      dictLookup db (entries db (sourceRecs f ls)) k = dictLookup db (sourceRecs f ls) k := by
+  have hd := sourceRecs_dumpable f ls hok
+  have hde : ∀ r ∈ entries db (sourceRecs f ls), Dumpable f.keep r := by
+    intro r hr
+    obtain ⟨pre, post, e, _⟩ := (dump_lists_last_records db _ r).mp hr
+    exact hd r (by rw [e]; simp)
+  have hrt : entries db (entries db (sourceRecs f ls)) = entries db (sourceRecs f ls) := by
+    cases db with
+    | trie => exact trie_roundtrip (trieBuild_inv _)
+    | sqlite => exact sql_roundtrip (sqlBuild_inv _)
+  refine ⟨?_, dump_lists_last_records db _, ?_, by rw [hrt], fun k hk => (recompiled_lookup_iff db _ k).mpr hk⟩
+  · rw [readLines_writeLines _ hfile]
+    exact compileRun_wellformed f hdr ls hok
+  · rw [dump_file_roundtrip f.csv _ (fun r hr => (hde r hr).1)]
+    exact compileRun_dump f _ hde
+
+/-- the same source with CRLF line ends, or without a line end after the last line, compiles to the same
+    result (`BufRead::lines` drops one carriage return before the line feed) -/
+theorem wellformed_source_line_ends (f : Flags) (hdr : Text) (ls : List SrcLine)
+    (hok : ∀ l ∈ ls, l.OK f.delim) (hfile : ∀ t ∈ sourceLines f hdr ls, FileLine t) :
+    compileRun f (readLines (writeLinesCrlf (sourceLines f hdr ls))) =
+        { reported := [], inserted := some (sourceRecs f ls) } ∧
+    ∀ (init : List Text) (last : Text), sourceLines f hdr ls = init ++ [last] → last ≠ [] →
+      compileRun f (readLines (writeLines init ++ last)) = { reported := [], inserted := some (sourceRecs f ls) } := by
+  constructor
+  · rw [readLines_writeLinesCrlf _ (fun l hl => (hfile l hl).1)]
+    exact compileRun_wellformed f hdr ls hok
+  · intro init last e hne
+    rw [readLines_no_final_newline init last (fun x hx => hfile x (by rw [e]; simp [hx]))
+      (hfile last (by rw [e]; simp)).1 hne, ← e]
+    exact compileRun_wellformed f hdr ls hok
 
 /-! ## 4. malformed lines -/
 
@@ -408,6 +503,13 @@ example :
         [⟨[28204, 35430], 10, [10268, 8708]⟩, ⟨[28204], 0, [10268]⟩] ∧
     ∀ r ∈ entries .trie [⟨[28204], 0, [10268]⟩, ⟨[28204, 35430], 9, [10268, 8708]⟩, ⟨[28204, 35430], 10, [10268, 8708]⟩],
       WellFormedRecord r := by decide
+/-- a well-formed free-style line: `"測試"  "9" ㄘㄜˋ,ㄕˋ # x` -/
+example : (⟨true, true, [32, 32], [32], [44], some ([32], [32, 120]), ⟨[28204, 35430], 9, [10268, 8708]⟩⟩ : SrcLine).text =
+    [34, 28204, 35430, 34, 32, 32, 34, 57, 34, 32, 12568, 12572, 715, 44, 12565, 715, 32, 35, 32, 120] := by decide
+example : (⟨true, true, [32, 32], [32], [44], some ([32], [32, 120]), ⟨[28204, 35430], 9, [10268, 8708]⟩⟩ : SrcLine).OK 32 :=
+  ⟨by decide, ⟨by decide, by decide⟩, ⟨by decide, by decide⟩,
+   ⟨by decide, fun c hc => by simp at hc; subst hc; decide⟩,
+   fun gc c h => by cases h; exact ⟨by decide, fun c hc => by simp at hc; subst hc; decide⟩⟩
 /-- a rejected line, reported as line 2 -/
 example : (compileRun ⟨false, false, false⟩ [[28204, 32, 53, 32, 12568, 12572, 715], [28204, 35430, 32, 120, 32, 12568]]).reported
     = [(2, .badFreq)] := by decide
